@@ -170,11 +170,11 @@ impl Storage {
                 );
             }
         } else {
+            // Everything a later start relies on is written in one batch together with the
+            // genesis key: a partly initialized store could not be opened again.
             let mut batch = self.batch();
             let block_hash = block.calc_header_hash();
-            batch
-                .put_kv(Key::Meta(LAST_STATE_KEY), block.header().as_slice())
-                .expect("batch put should be ok");
+            self.batch_last_state(&mut batch, &U256::zero(), &block.header(), &[]);
             batch
                 .put_kv(Key::BlockHash(&block_hash), block.header().as_slice())
                 .expect("batch put should be ok");
@@ -196,8 +196,6 @@ impl Storage {
             batch
                 .put_kv(genesis_block_key, genesis_hash_and_txs_hash.as_slice())
                 .expect("batch put should be ok");
-            batch.commit().expect("batch commit should be ok");
-            self.update_last_state(&U256::zero(), &block.header(), &[]);
             let genesis_block_filter_hash: Byte32 = {
                 let block_view = block.into_view();
                 let provider = WrappedBlockView::new(&block_view);
@@ -210,9 +208,25 @@ impl Storage {
                 let genesis_block_filter_data = genesis_block_filter_vec.pack();
                 calc_filter_hash(&parent_block_filter_hash, &genesis_block_filter_data).pack()
             };
-            self.update_max_check_point_index(0);
-            self.update_check_points(0, &[genesis_block_filter_hash]);
-            self.update_min_filtered_block_number(0);
+            batch
+                .put_kv(
+                    Key::Meta(MAX_CHECK_POINT_INDEX),
+                    (0 as CpIndex).to_be_bytes().as_slice(),
+                )
+                .expect("batch put should be ok");
+            batch
+                .put_kv(
+                    Key::CheckPointIndex(0),
+                    Value::BlockFilterHash(&genesis_block_filter_hash),
+                )
+                .expect("batch put should be ok");
+            batch
+                .put_kv(
+                    Key::Meta(MIN_FILTERED_BLOCK_NUMBER),
+                    (0 as BlockNumber).to_le_bytes().as_slice(),
+                )
+                .expect("batch put should be ok");
+            batch.commit().expect("batch commit should be ok");
         }
     }
 
